@@ -552,6 +552,12 @@ func runC18(c *Ctx) {
 	for i := 0; i < n; i++ {
 		fam := fams[i%len(fams)]
 		w := refgraph.Generate(c.Rng, fam.opts)
+		if i%3 == 2 {
+			// schemas carrying a fragment `id` ("#s1": same document, other anchor) are registered in the cache
+			// by the expander itself: they must not displace the document they live in
+			w = withIDs(c, w, "fragment")
+			c.Hit("ids:fragment")
+		}
 		g := w.BuildGraph()
 		if len(g.Missing) > 0 {
 			c.Hit("skipped-missing-target")
